@@ -592,6 +592,7 @@ func (c *client) Receive(reader io.Reader) error {
 				errMsg := fmt.Sprintf("Unsupported compression type: %s (supported compression types: %s)",
 					compression, strings.Join(codecs.CompressionNames, ", "))
 				c.send(raw.Header, &message.ProtocolError{ErrorMessage: errMsg})
+				return nil // The startup request has been answered with an error; it must not also be answered with ready
 			}
 		}
 		c.send(raw.Header, &message.Ready{})
